@@ -630,7 +630,15 @@ def observer_fields(ctx, adt_path, api_names):
         chain, ty = place_field_chain(pl, body, prog)
         return ty.get('k') == 'adt' and ty.get('path') == adt_path
 
-    for f in ctx.facts['fns']:
+    # functions whose RESULT carries a value read from field fi (getters, direct or through other getters): a call to one
+    # of them is a read of the field in the caller (the analysis is interprocedural through this set)
+    getters = {fi: set() for fi in cand}
+    outer = True
+    rounds = 0
+    while outer and rounds < 20:
+      outer = False
+      rounds += 1
+      for f in ctx.facts['fns']:
         if f.get('derived'):
             continue
         is_fmt = (f.get('impl_trait') or '').startswith('core::fmt::')
@@ -689,6 +697,17 @@ def observer_fields(ctx, adt_path, api_names):
                                 pl = o['pl']
                                 if fi in through(pl, body) or pl['l'] in taint:
                                     used = True
+                        if k == 'call' and not used:
+                            callee_p = ((t['fn'].get('fn') or {}).get('resolved') or {}).get('path')
+                            if callee_p in getters[fi]:
+                                # the call returns the field's value: its destination is tainted like a direct read
+                                if t['dest']['p']:
+                                    bad = True
+                                elif t['dest']['l'] not in taint:
+                                    if t['dest']['l'] == 0 and not (getter_ok or is_fmt):
+                                        bad = True
+                                    taint.add(t['dest']['l']); changed = True
+                            continue
                         if not used:
                             continue
                         if k in ('switch', 'assert'):
@@ -703,6 +722,9 @@ def observer_fields(ctx, adt_path, api_names):
                                 if t['dest']['l'] == 0 and not (getter_ok or is_fmt):
                                     bad = True
                                 taint.add(t['dest']['l']); changed = True
+                if 0 in taint and f['path'] not in getters[fi]:
+                    getters[fi].add(f['path'])
+                    outer = True
                 if bad:
                     relevant.add(fi)
     return cand - relevant
